@@ -285,6 +285,15 @@ class Interp:
 
     def truth_fork(self, st: State, node: ast.expr):
         """Evaluate a condition. Returns (list[(state, bool)], raises)."""
+        if isinstance(node, ast.NamedExpr):
+            # (x := e) as a condition: bind, then test the bound name (so that the decision is remembered about x)
+            vals, raises = self.eval(st, node)
+            out = []
+            for s, _ in vals:
+                res, r = self.truth_fork(s, ast.copy_location(ast.Name(id=node.target.id, ctx=ast.Load()), node))
+                out += res
+                raises += r
+            return out, raises
         if isinstance(node, ast.UnaryOp) and isinstance(node.op, ast.Not):
             res, r = self.truth_fork(st, node.operand)
             return [(s, not b) for s, b in res], r
@@ -558,6 +567,14 @@ class Interp:
         self.budget.tick()
         if isinstance(node, ast.Constant):
             return [(st, const(node.value))], []
+        if isinstance(node, ast.NamedExpr):
+            vals, raises = self.eval(st, node.value)
+            out = []
+            for s, av in vals:
+                s = s.copy()
+                self.assign(s, node.target, av)
+                out.append((s, av))
+            return out, raises
         if isinstance(node, ast.Name):
             k = self.var(node.id)
             if k in st.env:
@@ -735,7 +752,8 @@ class Interp:
                 vals, r = self.eval(s, a.value if isinstance(a, ast.Starred) else a)
                 raises += r
                 if isinstance(a, ast.Starred):
-                    nxt += [(s2, pos, {**kw, "*": av}) for s2, av in vals]
+                    # f(*t) with a tuple whose elements are known is f(t0, t1, ...)
+                    nxt += [(s2, pos + list(av.val), kw) if (av.kind == "tuple" and "*" not in kw) else (s2, pos, {**kw, "*": av}) for s2, av in vals]
                 else:
                     nxt += [(s2, pos + [av], kw) for s2, av in vals]
             cur = nxt
